@@ -502,3 +502,95 @@ pub fn builtin_program(enc: bool) -> BoxedStrategy<Program> {
 pub fn entropies(n: usize) -> BoxedStrategy<Vec<Vec<u8>>> {
     vec(vec(any::<u8>(), 0..96), n..=n).boxed()
 }
+
+/// fixed family programs: every member of each macro-generated family of built-in impls in one
+/// registry (C04); `k` selects the family
+pub const N_FAMILIES: u8 = 7;
+pub fn family_program(k: u8) -> Program {
+    let bx = |t: TE| Box::new(t);
+    let ints = || -> Vec<TE> { [8u8, 16, 32, 64, 128].iter().flat_map(|b| vec![TE::U(*b), TE::I(*b)]).collect() };
+    let roots: Vec<TE> = match k % N_FAMILIES {
+        0 => {
+            let mut v: Vec<TE> = vec![];
+            for s in [8u8, 16, 32, 64] {
+                for m in [false, true] {
+                    v.push(TE::BitVec(s, m));
+                }
+            }
+            v.push(TE::Option(bx(TE::BitVec(8, true))));
+            v.push(TE::Vec(bx(TE::BitVec(16, false))));
+            v.push(TE::Tuple(vec![TE::BitVec(32, true), TE::BitVec(32, false)]));
+            v
+        }
+        1 => {
+            let pool = [TE::U(8), TE::Bool, TE::String, TE::I(64), TE::U(128), TE::Unit, TE::Option(bx(TE::U(16))), TE::Compact(32)];
+            (0..=18usize).map(|n| TE::Tuple((0..n).map(|i| pool[(i + n) % pool.len()].clone()).collect())).collect()
+        }
+        2 => {
+            let mut v: Vec<TE> = vec![];
+            for b in [8u8, 16, 32, 64, 128] {
+                v.push(TE::NonZeroU(b));
+                v.push(TE::NonZeroI(b));
+                v.push(TE::Compact(b));
+                v.push(TE::Range(bx(TE::U(b))));
+                v.push(TE::RangeIncl(bx(TE::I(b))));
+            }
+            v.push(TE::Compact(0));
+            v.push(TE::Duration);
+            v.push(TE::CW);
+            v
+        }
+        3 => vec![
+            TE::Vec(bx(TE::U(16))),
+            TE::VecDeque(bx(TE::String)),
+            TE::Map(bx(TE::U(32)), bx(TE::String)),
+            TE::Map(bx(TE::String), bx(TE::Vec(bx(TE::U(8))))),
+            TE::Set(bx(TE::I(16))),
+            TE::Heap(bx(TE::U(64))),
+            TE::CowStr,
+            TE::CowSlice(bx(TE::U(32))),
+            TE::Cow(bx(TE::U(64))),
+            TE::Box(bx(TE::String)),
+            TE::Rc(bx(TE::Vec(bx(TE::Bool)))),
+            TE::Arc(bx(TE::Option(bx(TE::I(8))))),
+            TE::Ref(bx(TE::U(128))),
+            TE::Str,
+            TE::Result(bx(TE::Vec(bx(TE::U(8)))), bx(TE::String)),
+        ],
+        4 => {
+            let mut v = ints();
+            v.extend(vec![TE::Bool, TE::String, TE::Unit]);
+            for n in 0..5u8 {
+                v.push(TE::Array(bx(TE::U(16)), n));
+            }
+            v.push(TE::Array(bx(TE::Array(bx(TE::Bool), 2)), 3));
+            v.push(TE::Option(bx(TE::Option(bx(TE::Unit)))));
+            v.push(TE::Result(bx(TE::Unit), bx(TE::Unit)));
+            v
+        }
+        5 => {
+            let ph = || TE::Phantom(bx(TE::U(8)));
+            vec![
+                ph(),
+                TE::Tuple(vec![TE::U(8), ph()]),
+                TE::Tuple(vec![ph()]),
+                TE::Tuple(vec![ph(), TE::Phantom(bx(TE::String)), TE::Bool]),
+                TE::Option(bx(ph())),
+                TE::Vec(bx(ph())),
+                TE::Array(bx(ph()), 3),
+                TE::Map(bx(TE::U(8)), bx(ph())),
+                TE::Result(bx(ph()), bx(TE::U(8))),
+                TE::Box(bx(ph())),
+                TE::Cow(bx(ph())),
+            ]
+        }
+        _ => vec![
+            TE::Char,
+            TE::Vec(bx(TE::Char)),
+            TE::Tuple((0..19).map(|i| if i % 2 == 0 { TE::U(8) } else { TE::Bool }).collect()),
+            TE::Tuple((0..20).map(|i| if i % 3 == 0 { TE::Char } else { TE::U(16) }).collect()),
+            TE::Tuple((0..20).map(|i| if i == 7 { TE::Phantom(bx(TE::U(8))) } else { TE::U(32) }).collect()),
+        ],
+    };
+    Program { defs: vec![], roots }
+}
